@@ -65,6 +65,8 @@ class OutgoingRIB(Cache):
         # This avoids needing to deepcopy and modify nlri.action
         self._pending_withdraws = {}
 
+        # indexes withdrawn while no Adj-RIB-Out is kept (adj-rib-out false): what the cache remembers otherwise
+        self._withdrawn_uncached: set[bytes] = set()
         self._refresh_families = set()
         self._refresh_routes = []
 
@@ -171,7 +173,8 @@ class OutgoingRIB(Cache):
             # got an End-of-RIB on an empty table. The routes a watchdog holds back stay held back.
             held = {index for states in self._watchdog.values() for index in states.get('-', {})}
             for route in new:
-                if route.index() not in held:
+                # ... and so does what was withdrawn through the API since (with a cache it is simply not in it)
+                if route.index() not in held and route.index() not in self._withdrawn_uncached:
                     self.add_to_rib(route, True)
 
         for index in list(indexed):
@@ -195,9 +198,12 @@ class OutgoingRIB(Cache):
         for route in previous:
             indexed[route.index()] = route
 
+        # a route which its watchdog holds back (`watchdog <name> withdraw`) is not announced because a reload added it
+        held = {index for states in self._watchdog.values() for index in states.get('-', {})}
         for route in new:
             if indexed.pop(route.index(), None) is None:
-                self.add_to_rib(route, True)
+                if route.index() not in held:
+                    self.add_to_rib(route, True)
                 continue
 
         for index in list(indexed):
@@ -292,6 +298,8 @@ class OutgoingRIB(Cache):
         from exabgp.bgp.message.update.attribute.collection import AttributeCollection as AttrsClass
 
         self._pending_withdraws.setdefault(route_family, {})[nlri_index] = (nlri, attrs if attrs else AttrsClass())
+        if not self.cache:
+            self._withdrawn_uncached.add(route_index)
 
         # a refresh queued before this withdraw (flush adj-rib out, ROUTE-REFRESH from the peer) holds a copy of the
         # route: it would be announced again after being withdrawn -- for good in the first window of a session,
@@ -322,6 +330,7 @@ class OutgoingRIB(Cache):
         if not force and self.in_cache(route):
             return
 
+        self._withdrawn_uncached.discard(route.index())
         self._update_rib(route)
 
     def add_nlri_to_rib(self, nlri: 'NLRI', attributes: 'AttributeCollection', force: bool = False) -> None:
